@@ -39,6 +39,8 @@ def analyse(ctx, fx, files=FILES, prefix=""):
         taint.check_arith(ctx, fn, ft, rule=prefix + "R-ARITH.mul", ops=("Mul", "MulWithOverflow", "MulUnchecked"), fx=fx)
         ctx.instance(prefix + "R-ARITH.mul.guards_examined", len(taint.Guards(fn, ft).items))
     taint.recursion_cycles(ctx, res, rule=prefix + "R-RECURSE")
+    taint.narrow_sums(ctx, fx, entries, rule=prefix + "R-ARITH.sum", res=res)
+    taint.str_byte_slices(ctx, res, rule=prefix + "R-STRSLICE")
     ctx.instance(prefix + "entries", len(entries))
     ctx.instance(prefix + "closure_fns", len(res))
     ctx.instance(prefix + "untrusted_sinks", nsinks)
@@ -47,7 +49,7 @@ def analyse(ctx, fx, files=FILES, prefix=""):
 
 def run(ctx):
     fx = ctx.facts("default")
-    fixtures.run(ctx, ['taint', 'trunc', 'arithmul', 'div', 'recurse', 'uninit'])
+    fixtures.run(ctx, ['taint', 'trunc', 'arithmul', 'div', 'recurse', 'uninit', 'narrowsum', 'strslice'])
     cl, entries, res = analyse(ctx, fx)
     nt = 0
     for fid in fx.fn_ids():
